@@ -396,38 +396,47 @@ func (ck *Check) returnCases(ctx *Ctx, prefix *Formula, depth int) []retCase {
 		for i, rv := range r.Results {
 			res[i] = ctx.Term(rv)
 		}
-		// split merged values: all φ of one block, by incoming edge
-		var join *ssa.BasicBlock
-		for _, t := range res {
-			t.walk(func(x *Term) bool {
-				if ph, ok := x.Val.(*ssa.Phi); ok && x.Kind == "phi" && ph.Parent() == fn && join == nil && len(ph.Edges) == len(ph.Block().Preds) {
-					if l := innermostLoop(fn, ph.Block()); l == nil || l.Header != ph.Block() {
-						join = ph.Block()
+		// split merged values: all φ of one block, by incoming edge — and again for the values that
+		// merge at another block (a delta computed on two branches, an error set on a third)
+		var expand func(pc *Formula, res []*Term, done map[*ssa.BasicBlock]bool, d int)
+		expand = func(pc *Formula, res []*Term, done map[*ssa.BasicBlock]bool, d int) {
+			var join *ssa.BasicBlock
+			for _, t := range res {
+				t.walk(func(x *Term) bool {
+					if ph, ok := x.Val.(*ssa.Phi); ok && x.Kind == "phi" && ph.Parent() == fn && join == nil && !done[ph.Block()] && len(ph.Edges) == len(ph.Block().Preds) && ph.Block().Dominates(b) {
+						if l := innermostLoop(fn, ph.Block()); l == nil || l.Header != ph.Block() {
+							join = ph.Block()
+						}
 					}
-				}
-				return true
-			})
-		}
-		if join == nil || !join.Dominates(b) {
-			out = append(out, retCase{PC: pc, Res: res, Ctx: ctx, Ret: r})
-			continue
-		}
-		for ei, pred := range join.Preds {
-			sub := make([]*Term, len(res))
-			for i, t := range res {
-				sub[i] = rewriteTermDeep(t, func(x *Term) *Term {
-					if ph, ok := x.Val.(*ssa.Phi); ok && x.Kind == "phi" && ph.Block() == join {
-						return ctx.Term(ph.Edges[ei])
-					}
-					return nil
+					return true
 				})
 			}
-			epc := And(pc, ctx.edgePC(pred, join))
-			if sat, err := Satisfiable(epc); err == nil && !sat {
-				continue
+			if join == nil || d > 3 {
+				out = append(out, retCase{PC: pc, Res: res, Ctx: ctx, Ret: r})
+				return
 			}
-			out = append(out, retCase{PC: epc, Res: sub, Ctx: ctx, Ret: r})
+			done2 := map[*ssa.BasicBlock]bool{join: true}
+			for k := range done {
+				done2[k] = true
+			}
+			for ei, pred := range join.Preds {
+				sub := make([]*Term, len(res))
+				for i, t := range res {
+					sub[i] = rewriteTermDeep(t, func(x *Term) *Term {
+						if ph, ok := x.Val.(*ssa.Phi); ok && x.Kind == "phi" && ph.Block() == join {
+							return ctx.Term(ph.Edges[ei])
+						}
+						return nil
+					})
+				}
+				epc := And(pc, ctx.edgePC(pred, join))
+				if sat, err := Satisfiable(epc); err == nil && !sat {
+					continue
+				}
+				expand(epc, sub, done2, d+1)
+			}
 		}
+		expand(pc, res, map[*ssa.BasicBlock]bool{}, 0)
 	}
 	return out
 }
